@@ -102,7 +102,7 @@ class Config:
             return ['OVERFLOW', 'SATURATE']
         return ['OVERFLOW', 'SATURATE', 'WRAP', 'ASSERT']
 
-    def build(self, mode: str, ovf: str):
+    def build(self, mode: str, ovf: str, k: int = 0, rng=None):
         """-> (ctx, spec).  Raises ValueError when the constructor rejects."""
         rm = RM[mode]
         ov = OV[ovf]
@@ -117,7 +117,7 @@ class Config:
         if f == 'REAL':
             return REAL, R.Spec('real', has_nan=True, has_inf=True, label='REAL')
         if f == 'IEEE':
-            ctx = IEEEContext(P['es'], P['nbits'], rm, ov)
+            ctx = IEEEContext(P['es'], P['nbits'], rm, ov, k, rng=rng)
             vals = _decoded(ctx)
             p = P['nbits'] - P['es']
             emin = 2 - (1 << (P['es'] - 1))
@@ -125,7 +125,7 @@ class Config:
         if f == 'EFloat':
             kind = EFloatNanKind[P['nan_kind']]
             nanv, infv = opt('nan_value'), opt('inf_value')
-            ctx = EFloatContext(P['es'], P['nbits'], P['inf'], kind, P['eoffset'], rm, ov,
+            ctx = EFloatContext(P['es'], P['nbits'], P['inf'], kind, P['eoffset'], rm, ov, k, rng=rng,
                                 nan_value=nanv, inf_value=infv)
             vals = _decoded(ctx)
             d = _spec_from_decoded('float', vals)
@@ -159,12 +159,12 @@ class Config:
                       nan_sub='ERR' if nanv is None else _xsub(nanv),
                       inf_sub='ERR' if infv is None else _xsub(infv))
             if f == 'MPFloat':
-                return MPFloatContext(P['p'], rm, **kw), R.Spec('float', p=P['p'], **sp)
+                return MPFloatContext(P['p'], rm, k, rng=rng, **kw), R.Spec('float', p=P['p'], **sp)
             if f == 'MPSFloat':
-                return MPSFloatContext(P['p'], P['emin'], rm, **kw), R.Spec('float', p=P['p'], emin=P['emin'], **sp)
+                return MPSFloatContext(P['p'], P['emin'], rm, k, rng=rng, **kw), R.Spec('float', p=P['p'], emin=P['emin'], **sp)
             mx = Q(P['maxval'])
             ng = Q(P['neg_maxval']) if P.get('neg_maxval') is not None else -mx
-            ctx = MPBFloatContext(P['p'], P['emin'], rf(mx), rm, ov,
+            ctx = MPBFloatContext(P['p'], P['emin'], rf(mx), rm, ov, k, rng=rng,
                                   neg_maxval=(rf(ng) if P.get('neg_maxval') is not None else None), **kw)
             return ctx, R.Spec('float', p=P['p'], emin=P['emin'], maxpos=mx, maxneg=ng, **sp)
         if f in ('MPFixed', 'MPBFixed'):
@@ -175,18 +175,18 @@ class Config:
                       nan_sub='ERR' if nanv is None else _xsub(nanv),
                       inf_sub='ERR' if infv is None else _xsub(infv))
             if f == 'MPFixed':
-                return MPFixedContext(P['nmin'], rm, **kw), R.Spec('fixed', nmin=P['nmin'], **sp)
+                return MPFixedContext(P['nmin'], rm, k, rng=rng, **kw), R.Spec('fixed', nmin=P['nmin'], **sp)
             mx = Q(P['maxval'])
             ng = Q(P['neg_maxval']) if P.get('neg_maxval') is not None else -mx
-            ctx = MPBFixedContext(P['nmin'], rf(mx), rm, ov,
+            ctx = MPBFixedContext(P['nmin'], rf(mx), rm, ov, k, rng=rng,
                                   neg_maxval=(rf(ng) if P.get('neg_maxval') is not None else None), **kw)
             return ctx, R.Spec('fixed', nmin=P['nmin'], maxpos=mx, maxneg=ng, **sp)
         if f in ('Fixed', 'SMFixed'):
             nanv, infv = opt('nan_value'), opt('inf_value')
             if f == 'Fixed':
-                ctx = FixedContext(P['signed'], P['scale'], P['nbits'], rm, ov, nan_value=nanv, inf_value=infv)
+                ctx = FixedContext(P['signed'], P['scale'], P['nbits'], rm, ov, k, rng=rng, nan_value=nanv, inf_value=infv)
             else:
-                ctx = SMFixedContext(P['scale'], P['nbits'], rm, ov, nan_value=nanv, inf_value=infv)
+                ctx = SMFixedContext(P['scale'], P['nbits'], rm, ov, k, rng=rng, nan_value=nanv, inf_value=infv)
             vals = _decoded(ctx)
             d = _spec_from_decoded('fixed', vals)
             return ctx, R.Spec('fixed', nmin=P['scale'] - 1,
